@@ -45,6 +45,7 @@ func run(t *testing.T, tape *simrt.Tape, env dst.Env) *simrt.Outcome {
 		retConn  transport.Conn
 		retErr   error
 		returned bool
+		open     int
 		scripts  = map[string]*script{}
 		order    []string
 		cancelT  time.Duration = -1
@@ -159,6 +160,13 @@ func run(t *testing.T, tape *simrt.Tape, env dst.Env) *simrt.Outcome {
 		simrt.Ev("resolved", "conn=%v err=%v", retConn != nil, retErr)
 		// quiescence: let every racing dial finish and clean up
 		simrt.Sleep(0, 5*time.Second)
+		// counted while the caller's context is still alive (unless the run
+		// itself cancelled it): a loser parked until the caller gives up is a leak
+		for _, c := range conns {
+			if !c.IsClosed() {
+				open++
+			}
+		}
 	})
 	if out.HarnessErr != "" {
 		return out
@@ -174,12 +182,6 @@ func run(t *testing.T, tape *simrt.Tape, env dst.Env) *simrt.Outcome {
 	if !returned {
 		out.AddViolation("C42", "C42.never-returned", "never-returned", "resolver call did not return (stuck=%v %v)", out.Stuck, out.StuckTasks)
 		return out
-	}
-	open := 0
-	for _, c := range conns {
-		if !c.IsClosed() {
-			open++
-		}
 	}
 	ctxEnded := cancelT >= 0
 	if retConn != nil && retErr == nil {
